@@ -16,7 +16,11 @@
     - [_get_flat_type_info]: parent first                           -> Model.flat_f
     - [append_field]/[insert_field]: the class, then its variants   -> Model.append_field / insert_field
     - [Decimal._s_customize]: max_str_len = requested total_digits + 2  -> Model.decimal_pre
-    - [odict]: a new key goes last, insert moves a known key        -> Model.od_set / od_insert *)
+    - [odict]: a new key goes last, insert moves a known key        -> Model.od_set / od_insert
+    - [_s_customize] updates a COPY of prot.type_attrs               -> Model.eff_kw / protos never written
+    - [ByteArray.__new__] rewrites the encoding only when it is given -> Model.bytearray_new
+    - [sort_fields] caches per class and re-checks the field table; the flat alias table is a
+      function of the flat fields                                   -> protocol side: observed by the oracle *)
 From SpyneV Require Import Base.Prelude Gen.DeriveSrc C15.Model.
 Import ListNotations.
 Open Scope Z_scope.
@@ -77,5 +81,7 @@ Lemma source_shape :
   memberless_base_kept = true /\
   flat_parent_first = true /\ evolution_propagates = true /\
   decimal_msl_from_request = true /\ decimal_msl_add = 2 /\
-  odict_setitem_new_only = true /\ odict_insert_moves = true.
+  odict_setitem_new_only = true /\ odict_insert_moves = true /\
+  type_attrs_copied = true /\ bytearray_encoding_only_when_given = true /\
+  sortcache_per_class = true /\ sortcache_checked = true /\ flat_alias_from_fields = true.
 Proof. repeat split; reflexivity. Qed.
